@@ -8,8 +8,10 @@ TLC:  MCNumTower checks the same definitions at small word size against plain in
       arithmetic and the laws of the statement over EVERY pair of typed numbers; the named
       deviations must be refuted there (self-test, thorough tier)
 bind: (op a b) and (op b a) for 11 operators on the real interpreter over the boundary grid
-      (every pair, every type combination) and seeded random 64-bit patterns; TLC validates every
-      recorded result against NumTower!Expect and the laws on the recorded results (NumTrace)
+      (every pair, every type combination) and seeded random 64-bit patterns, reached by three
+      routes (program text, Zlisp.Apply on the builtin, the exported Go functions NumericDo /
+      IntegerDo / CompareFunction); TLC validates every recorded result against NumTower!Expect
+      and the laws on the recorded results of every type combination (NumTrace)
 """
 import json, os
 import vlib, flow
@@ -43,12 +45,11 @@ def _boundary(n):
 
 
 def _judged(op, ta, tb):
-    """mirror of NumTower!CmpClass / AriClass: is the value of (op a b) fixed by the statement"""
+    """mirror of NumTower!CmpClass / AriClass: is the value of (op a b) fixed by the statement
+    (comparisons of the other type combinations are judged by the laws on the pair, not counted here)"""
     if op in OPS[:6]:
         return ta == tb or ("uint" not in (ta, tb) and "flt" in (ta, tb))
-    if op == "mod":
-        return False
-    return "flt" in (ta, tb) or ta == tb or "uint" not in (ta, tb)
+    return op != "mod"
 
 
 def _validate(out, zv, trace, env):
@@ -121,6 +122,9 @@ def run():
     events = 0
     nontrivial = set()
     pairs = set()
+    routes = {}
+    for c in cases.values():
+        routes[c.get("rt", "text")] = routes.get(c.get("rt", "text"), 0) + 1
     per_pair = {}
     errs = 0
     for c in cases.values():
@@ -148,11 +152,13 @@ def run():
         "evaluations": events,
         "distinct_nontrivial": len(nontrivial),
         "rule": "distinct (op, typed a, typed b) evaluations whose value the statement fixes (same-type or "
-                "int/chr-with-float comparisons, int/uint/chr/float arithmetic) and where an operand lies next to a "
+                "int/chr-with-float comparisons, arithmetic of every type combination) and where an operand lies next to a "
                 "limit (|v| >= 2^53-1, max rune and beyond, zero/subnormal/non-finite float, float >= 2^52); inputs: every "
-                "unordered pair of the 92-value boundary grid in both orders under 11 operators, plus seeded random "
-                "64-bit patterns over all 16 type combinations (related operands: equal value, neighbours, multiples, divisors)",
+                "unordered pair of the 92-value boundary grid in both orders under 11 operators by program text, every pair of a "
+                "29-value sub-grid by Zlisp.Apply and by the exported Go functions, plus seeded random 64-bit patterns over all "
+                "16 type combinations and the 3 routes (related operands: equal value, neighbours, multiples, divisors)",
         "cases": len(cases),
+        "cases_per_route": routes,
         "type_pairs": len(pairs),
         "events_per_type_pair": per_pair,
         "error_results": errs,
@@ -167,10 +173,16 @@ def run():
         "spec fixes the operands (its own int->float conversion), the dispatch and the result type",
         "an operand is written as a literal when the real reader maps the literal to exactly that typed value, otherwise "
         "bound to a global from Go (runes without literal, NaN payloads); what literals denote is C12",
-        "not judged because the statement is silent: uint64 mixed with int/char (comparison and arithmetic), the value of mod "
-        "for a non-zero divisor, min-int64 / -1, whether char arithmetic yields a char (low 32 bits) or an int (both accepted), "
-        "int against char comparison beyond the two laws; a float division by zero may be +-Inf/NaN or an error",
-        "a non-exact integer division may yield float64(a)/float64(b) or the correctly rounded quotient",
+        "not judged because the statement is silent: the value of mod for a non-zero divisor, whether char arithmetic yields a "
+        "char (low 32 bits) or an int and whether int-with-uint64 arithmetic yields an int or a uint64 (both accepted when "
+        "they hold the value), WHICH of < == > holds between int and char and between uint64 and int/char/float (only the two "
+        "laws and the NaN rule are judged there; an error is none of the three); a float division by zero may be +-Inf/NaN or "
+        "an error",
+        "integers divide by their values (int64 signed, uint64 unsigned); a quotient that does not divide, or that the result "
+        "type cannot hold (min-int64 / -1, uint64 / negative int below -2^63), may be float64(a)/float64(b) or the correctly "
+        "rounded quotient",
+        "the expected result is the same by every route; how a bare Inf token after a sign is read is reader syntax (C12), "
+        "operands are written +Inf / -Inf",
         "the NumTower definitions are checked against integer/rational arithmetic at 8-bit (thorough) / 6-bit (quick) word size; "
         "the 64-bit instance uses the same module with other constants",
         "TLC 1.8.0",
